@@ -1084,7 +1084,7 @@ impl TDigestView<'_> {
                 return Some(if value == self.min {
                     0.5 / centroids_weight
                 } else {
-                    (1. + (((value - self.min) / (first_mean - self.min))
+                    (1. + (diff_ratio(value, self.min, first_mean, self.min)
                         * ((self.centroids[0].weight() / 2.) - 1.)))
                         / centroids_weight
                 });
@@ -1100,7 +1100,7 @@ impl TDigestView<'_> {
                     1. - (0.5 / centroids_weight)
                 } else {
                     1.0 - ((1.0
-                        + (((self.max - value) / (self.max - last_mean))
+                        + (diff_ratio(self.max, value, self.max, last_mean)
                             * ((self.centroids[num_centroids - 1].weight() / 2.) - 1.)))
                         / centroids_weight)
                 });
@@ -1142,10 +1142,16 @@ impl TDigestView<'_> {
         weight_delta += self.centroids[upper].weight() / 2.;
         Some(
             if self.centroids[upper].mean - self.centroids[lower].mean > 0. {
-                (weight_below
-                    + (weight_delta * (value - self.centroids[lower].mean)
-                        / (self.centroids[upper].mean - self.centroids[lower].mean)))
-                    / centroids_weight
+                let (lower_mean, upper_mean) =
+                    (self.centroids[lower].mean, self.centroids[upper].mean);
+                let scaled = weight_delta * (value - lower_mean);
+                let span = upper_mean - lower_mean;
+                let part = if scaled.is_finite() && span.is_finite() {
+                    scaled / span
+                } else {
+                    weight_delta * diff_ratio(value, lower_mean, upper_mean, lower_mean)
+                };
+                (weight_below + part) / centroids_weight
             } else {
                 (weight_below + weight_delta / 2.) / centroids_weight
             },
@@ -1176,11 +1182,11 @@ impl TDigestView<'_> {
         }
         let first_weight = self.centroids[0].weight();
         if first_weight > 1. && weight < first_weight / 2. {
-            return Some(
-                self.min
-                    + (((weight - 1.) / ((first_weight / 2.) - 1.))
-                        * (self.centroids[0].mean - self.min)),
-            );
+            return Some(interpolate(
+                self.min,
+                self.centroids[0].mean,
+                (weight - 1.) / ((first_weight / 2.) - 1.),
+            ));
         }
         let last_weight = self.centroids[num_centroids - 1].weight();
         if last_weight > 1. && (centroids_weight - weight <= last_weight / 2.) {
@@ -1189,11 +1195,11 @@ impl TDigestView<'_> {
                 // interpolation below would divide zero by zero)
                 return Some(self.max);
             }
-            return Some(
-                self.max
-                    - (((centroids_weight - weight - 1.) / ((last_weight / 2.) - 1.))
-                        * (self.max - self.centroids[num_centroids - 1].mean)),
-            );
+            return Some(interpolate(
+                self.max,
+                self.centroids[num_centroids - 1].mean,
+                (centroids_weight - weight - 1.) / ((last_weight / 2.) - 1.),
+            ));
         }
 
         // interpolate between extremes
@@ -1370,6 +1376,34 @@ mod scale_function {
     }
 }
 
-const fn weighted_average(x1: f64, w1: f64, x2: f64, w2: f64) -> f64 {
-    (x1 * w1 + x2 * w2) / (w1 + w2)
+fn weighted_average(x1: f64, w1: f64, x2: f64, w2: f64) -> f64 {
+    let average = (x1 * w1 + x2 * w2) / (w1 + w2);
+    if average.is_finite() {
+        average
+    } else {
+        // the products overflow for means near f64::MAX: weight the means by ratios instead
+        let total = w1 + w2;
+        (x1 * (w1 / total) + x2 * (w2 / total)).clamp(x1.min(x2), x1.max(x2))
+    }
+}
+
+/// `(a - b) / (c - d)`; differences of finite values of opposite sign can overflow, in which case
+/// all four are taken at half scale.
+fn diff_ratio(a: f64, b: f64, c: f64, d: f64) -> f64 {
+    let (num, den) = (a - b, c - d);
+    if num.is_finite() && den.is_finite() {
+        num / den
+    } else {
+        (a / 2. - b / 2.) / (c / 2. - d / 2.)
+    }
+}
+
+/// `from + fraction * (to - from)`, without overflowing when `to - from` does.
+fn interpolate(from: f64, to: f64, fraction: f64) -> f64 {
+    let delta = to - from;
+    if delta.is_finite() {
+        from + fraction * delta
+    } else {
+        (from * (1. - fraction) + to * fraction).clamp(from.min(to), from.max(to))
+    }
 }
